@@ -37,6 +37,7 @@ type prodCfg struct {
 	BackoffMs    int     `json:"backoffMs"`
 	Sync         bool    `json:"sync"`
 	MaxReqSize   int     `json:"maxReqSize"`
+	InitPidFault string  `json:"initPidFault"`
 	PanicIc      int     `json:"panicIc"` // 1-based index of an interceptor that panics after logging (0 = none)
 }
 
@@ -211,6 +212,7 @@ func runProducerScenario(t testing.TB, rec *vRec, sc *prodScenario) {
 		fmt.Sscanf(k, "%d", &n)
 		c.plans[n] = p
 	}
+	c.initPidFault = cfgv.InitPidFault
 
 	// gates
 	gates := map[string]*gateState{}
@@ -342,6 +344,12 @@ func runProducerScenario(t testing.TB, rec *vRec, sc *prodScenario) {
 	}
 	nch := make(chan newRes, 1)
 	go func() {
+		defer func() {
+			if r := recover(); r != nil {
+				rec.Ev("panic", kv{"msg": fmt.Sprintf("NewAsyncProducer: %v", r), "stack": ""})
+				nch <- newRes{nil, fmt.Errorf("panic")}
+			}
+		}()
 		p, err := NewAsyncProducer(c.Addrs(), config)
 		nch <- newRes{p, err}
 	}()
@@ -406,10 +414,9 @@ func runProducerScenario(t testing.TB, rec *vRec, sc *prodScenario) {
 			}
 			close(done)
 		}()
-		select {
-		case <-done:
+		if vAwait(done, vCloseMax) {
 			rec.Ev("close_ret", nil)
-		case <-time.After(vCloseMax):
+		} else {
 			rec.Ev("hang", kv{"what": "close"})
 		}
 	}
@@ -470,9 +477,9 @@ func runProducerScenario(t testing.TB, rec *vRec, sc *prodScenario) {
 			c.submitted[st.ID] = sub
 			c.mu.Unlock()
 			rec.Ev("submit", kv{"id": st.ID, "part": st.Part, "keyed": st.Key != "", "size": len(val) + len(st.Key)})
-			select {
-			case prod.Input() <- m:
-			case <-time.After(vWait):
+			sent := make(chan struct{})
+			go func() { prod.Input() <- m; close(sent) }()
+			if !vAwait(sent, vWait) {
 				rec.Ev("hang", kv{"what": "submit"})
 			}
 		case "wait_req":
@@ -487,11 +494,17 @@ func runProducerScenario(t testing.TB, rec *vRec, sc *prodScenario) {
 				freeRunning = true // the real pipeline left the behaviour: open all gates, keep validating
 			}
 		case "must_outcomes":
-			if !waitOutcomes(st.N, stepWait(st)) {
+			// "eventually, without further input": the verdict is only taken when the process is
+			// fully blocked (vAwait), never from wall-clock time alone
+			dn := make(chan struct{})
+			go func(n int) { waitOutcomes(n, 100*time.Second); close(dn) }(st.N)
+			if !vAwait(dn, stepWait(st)) {
 				rec.Ev("noreq", kv{"n": st.N, "ms": st.Ms})
 			}
 		case "must_req":
-			if !c.WaitReq(st.N, stepWait(st)) {
+			dn := make(chan struct{})
+			go func(n int) { c.WaitReq(n, 100*time.Second); close(dn) }(st.N)
+			if !vAwait(dn, stepWait(st)) {
 				rec.Ev("noreq", kv{"n": st.N, "ms": st.Ms})
 			}
 		case "release":
@@ -568,7 +581,11 @@ func TestVerifProducer(t *testing.T) {
 		if err := json.Unmarshal([]byte(line), &sc); err != nil {
 			t.Fatalf("bad scenario %q: %v", line, err)
 		}
-		runProducerScenario(t, rec, &sc)
+		if sc.Cfg.Sync {
+			runSyncScenario(t, rec, &sc)
+		} else {
+			runProducerScenario(t, rec, &sc)
+		}
 		n++
 		if len(samples) < 2 {
 			samples = append(samples, line)
